@@ -181,6 +181,21 @@ def run(ctx):
               "matching treats =* as a raw string prefix (=1* matches 10) but the glob-vs-range arm only tests whether the range endpoint starts with the glob: "
               "=cat/pkg-1* and >cat/pkg-2 are reported disjoint although cat/pkg-10 matches both", node=glob_ranged[0])
 
+    # an exact version against a glob: the answer IS "does the glob match it", so the arm must use the matcher's own
+    # predicate.  While matching is the raw prefix test of StrGlobMatch on fullver, that is `<exact>.fullver.startswith(<glob>.fullver)`.
+    if uses_raw and not boundary_aware:
+        arms = [s for s in ast.walk(f.node) if isinstance(s, ast.If) and isinstance(s.test, ast.Compare) and len(s.test.ops) == 1 and isinstance(s.test.ops[0], ast.Eq)
+                and A.is_const(s.test.comparators[0], "=*") and any(isinstance(p_, ast.If) and isinstance(p_.test, ast.Compare) and A.is_const(p_.test.comparators[0], "=")
+                                                                    for p_ in A.parents(s))]
+        for arm in arms:
+            globside = A.unparse(arm.test.left).split(".")[0]
+            for r_ in (x for st_ in arm.body for x in ast.walk(st_) if isinstance(x, ast.Return)):
+                v = r_.value
+                ok = (isinstance(v, ast.Call) and A.call_attr(v) == "startswith" and A.unparse(v.func.value).endswith(".fullver") and len(v.args) == 1
+                      and A.unparse(v.args[0]) == f"{globside}.fullver" and A.unparse(v.func.value).split(".")[0] != globside)
+                ctx.check("R3", f, ok, f"exact-vs-glob-uses-matcher-predicate:{globside}", "an exact version intersects a glob exactly when the glob's raw prefix test (the matcher's) accepts it",
+                          f"the `=` vs `=*` arm answers with `{A.unparse(v)[:60]}` while matching a `=*` atom is StrGlobMatch on fullver (raw prefix): the two disagree for some version "
+                          f"(e.g. =cat/pkg-1* matches cat/pkg-12, which this arm denies or vice versa)", node=r_)
     # a glob that carries a revision (=1-r1*) still matches greater versions (1-r10): the "pinned, nothing else matches"
     # shortcut may only serve upper-bounded ranges
     pins = [n for n in ast.walk(glob_ranged[0]) if isinstance(n, ast.If) and isinstance(n.test, ast.Attribute) and n.test.attr == "revision"
